@@ -95,6 +95,9 @@ pub enum Case {
     /// different), every seventh one is a fresh copy of one of `rs` (Z = 1, identities, ...)
     BigBatch { rs: Vec<Recipe>, step: Recipe, n: u16, op: BatchOp },
     Conv { r: Recipe, op: ConvOp },
+    /// an element built by a recipe on either configuration (operator forms, ladders, the constant-time
+    /// selection glue, ...): whatever the public API hands out must be a valid element
+    Built { bk: Bk, r: Recipe },
     Elligator { bk: Bk, r1: Num, r2: Option<Num> },
     /// the (de)serialisation modes that are `unimplemented!()` on the pinned tree (uncompressed,
     /// unchecked, containers, which read their items with Validate::No): a panic saying "not
@@ -565,7 +568,15 @@ impl Property for C06 {
                 .prop_map(|(rs, step, n, w)| Case::BigBatch { rs, step, n, op: if w { BatchOp::NormalizeBatch } else { BatchOp::BatchConvertToMulBase } }),
             3 => (proptest::collection::vec(recipe::recipe_small(), 0..=6), any::<bool>()).prop_map(|(rs, w)| Case::Batch { rs, op: if w { BatchOp::NormalizeBatch } else { BatchOp::BatchConvertToMulBase } }),
             3 => (recipe::recipe(), any::<u16>()).prop_map(|(r, i)| Case::Conv { r, op: CONVS[pick(i, CONVS.len())] }),
+            2 => (bk(), recipe::recipe()).prop_map(|(bk, r)| Case::Built { bk, r }),
             1 => (bk(), gen::fq_special(), proptest::option::of(gen::fq_special())).prop_map(|(bk, r1, r2)| Case::Elligator { bk, r1, r2 }),
+            // two-input hash with related inputs: equal, opposite, cancelling summands
+            1 => (bk(), gen::fq_special(), 0u8..5).prop_map(|(bk, r1, rel)| {
+                let r = &r1.0 % &Q.m;
+                let c = Q.inv(&Q.mul(&CURVE.zeta, &r)).unwrap_or_default();
+                let r2 = match rel { 0 => r.clone(), 1 => Q.neg(&r), 2 => c, 3 => Q.neg(&c), _ => N::from(0u32) };
+                Case::Elligator { bk, r1: Num(r), r2: Some(Num(r2)) }
+            }),
             // bytes for the rarely used modes: valid encodings, near misses, coordinates of curve points (in and out of the group)
             2 => (proptest::collection::vec(prop_oneof![
                     2 => bytes32_near().prop_map(|b| b.bytes.0),
@@ -589,6 +600,23 @@ impl Property for C06 {
         for r in &specials {
             for op in CONVS {
                 v.push(Case::Conv { r: r.clone(), op: *op });
+            }
+        }
+        for bk in [Bk::Ark, Bk::Min] {
+            for r in [1u32, 2, 5] {
+                let r = N::from(r);
+                let c = Q.inv(&Q.mul(&CURVE.zeta, &r)).unwrap();
+                for r2 in [r.clone(), Q.neg(&r), c.clone(), Q.neg(&c), N::from(0u32)] {
+                    v.push(Case::Elligator { bk, r1: Num(r.clone()), r2: Some(Num(r2)) });
+                }
+            }
+        }
+        // elements that went through the constant-time selection glue (select / assign / swap must agree)
+        for (a, b) in [(Identity, Double(g())), (Double(g()), Identity), (Generator, Add(g(), Box::new(Elligator(3u64.into())))), (Add(g(), Box::new(Elligator(3u64.into()))), Sub(g(), Box::new(Elligator(5u64.into()))))] {
+            for choice in [false, true] {
+                v.push(Case::Conv { r: Select(choice, Box::new(a.clone()), Box::new(b.clone())), op: ConvOp::IntoAffineIntoGroup });
+                v.push(Case::Built { bk: Bk::Min, r: Select(choice, Box::new(a.clone()), Box::new(b.clone())) });
+                v.push(Case::Built { bk: Bk::Ark, r: Select(choice, Box::new(a.clone()), Box::new(b.clone())) });
             }
         }
         for op in [BatchOp::NormalizeBatch, BatchOp::BatchConvertToMulBase] {
@@ -688,6 +716,19 @@ impl Property for C06 {
             Case::BigBatch { rs, step, n, op } => big_batch_case(rs, step, *n as usize, *op, ctx),
             Case::GadgetValue { val, input, force } => gadget_value_case(&val.0, *input, *force, ctx),
             Case::Conv { r, op } => conv_case(r, *op, ctx),
+            Case::Built { bk, r } => {
+                ctx.nontrivial();
+                ctx.class(&format!("{}:built", bk.name()));
+                with_backend!(*bk, B => {
+                    let m = r.model();
+                    let e = r.lib::<B>(&m);
+                    valid_elem::<B>(&format!("{}:built", B::NAME), &e, ctx)?;
+                    if let Err(why) = judge_fast::<B>(&e, &m.pt) {
+                        ctx.report(format!("C06|{}:built|wrong-element", B::NAME), why)?;
+                    }
+                    Ok(())
+                })
+            }
             Case::DeserModes { bytes } => {
                 ctx.nontrivial();
                 deser_modes_case(&bytes.0, ctx)
